@@ -256,11 +256,12 @@ def main():
     pl = plan(chk.tier)
     if chk.tier == "quick":
         pl = pl[:5]
-    for s, nh, store, up in pl:
+    for qi, (s, nh, store, up) in enumerate(pl):
+        qg = qi % 3
         ts = ",".join(map(str, s))
         conds.append(Cond("vf.ch.h_engine", "check_keys_q" if chk.tier == "quick" else "check_keys",
                           f"every kernel call (init, start, transition, end, tune, end_warmup) for epoch types INITIAL,{ts} receives a distinct key term derived from the seed only",
-                          timeout_s=600 if chk.tier == "quick" else 1200, env={"TYPES": ts, "NK": "2", "NH": nh, "STORE": str(store), "UPFRONT": str(up)}, signature=f"keys:{ts}"))
+                          timeout_s=600 if chk.tier == "quick" else 1200, env={"TYPES": ts, "NK": "2", "NH": nh, "STORE": str(store), "UPFRONT": str(up), "QG": str(qg)}, signature=f"keys:{ts}"))
     conds.append(Cond("vf.ch.h_builder", "check_seed_int_equals_key", "EngineBuilder(seed=n) and EngineBuilder(seed=PRNGKey(n)) derive the same, pairwise distinct engine / jitter / builder keys", 200, signature="seed-int-key"))
     run_conditions(chk, conds)
     # B
@@ -281,5 +282,5 @@ def main():
     chk.bounds += ["engine schedules as in C07 (3 epochs, symbolic durations/thinning/chunk)", "2 chains, chunk of 2 transitions for non-interference; 2 chains, two position keys (vector and scalar) for the builder"]
     chk.enumerated += [f"epoch types INITIAL,{','.join(map(str, s))}" for s, *_ in pl] + ["single state replicated", "per-chain states"]
     chk.assume("ideal PRNG: keys are terms of a free algebra (threefry collision-free); a draw is a function of its key term", "bit-identical reruns beyond key derivation (XLA determinism) are outside the claim",
-               "fake environment contracts as in C07")
+               "quantity generators (0-2 recording generators, varied over the configurations) are part of the runs: their keys, call counts and stored outputs are checked", "fake environment contracts as in C07")
     return chk.finish(technique=TECH)
